@@ -110,13 +110,16 @@ structure SState where
   polls : Nat := 0
   passes : Nat := 0
   trace : List TEv := []
+  /-- ghost history for stating the properties: every firing with the visible state it started from
+      (newest first); not observable, not part of the refinement relation -/
+  fired : List (Nat Ã— RuleEntry Ã— Vis) := []
   deriving Inhabited
 
 def SState.emit (ss : SState) (e : TEv) : SState := { ss with trace := e :: ss.trace }
 
 def specPoll (rc : RunCfg) (ss : SState) : Bool Ã— SState :=
   let c := ss.vis.cancelled || (match rc.cancelAt with | some k => decide (k â‰¤ ss.polls) | none => false)
-  (c, { ss with polls := ss.polls + 1 })
+  (c, { ss with polls := ss.polls + (if c then 2 else 1) })
 
 def visRetracted (v : Vis) (e : RuleEntry) : Bool := v.retracted.contains e.rule.name
 
@@ -158,12 +161,16 @@ def specLoop (rc : RunCfg) (c : Cfg) (entries : List RuleEntry) : Nat â†’ Nat â†
     let ss := { ss with passes := ss.passes + 1 }
     match specPass rc c (cycle + 1) ord ss [] with
     | (some out, ss, _) => (out, ss)
-    | (none, ss, []) => (.ok, ss)
-    | (none, ss, r0 :: rs) =>
+    | (none, ss, acc) =>
+      let (cancelled, ss) := specPoll rc ss
+      if cancelled then (.ctx, ss) else
+      match acc with
+      | [] => (.ok, ss)
+      | r0 :: rs =>
       let cycle := cycle + 1
       if cycle > rc.maxCycle then (.cycleLimit, ss) else
       let runner := pickRunner r0 rs
-      let ss := ss.emit (.exec cycle runner.rule.name)
+      let ss := { ss.emit (.exec cycle runner.rule.name) with fired := (cycle, runner, ss.vis) :: ss.fired }
       let (cancelled, ss) := specPoll rc ss
       if cancelled then (.actionErr runner.rule.name true, ss) else
       match specActions c ss.vis runner.rule.acts with
@@ -179,11 +186,14 @@ structure SpecResult where
   store : Store
   retracted : List String
   polls : Nat
+  fired : List (Nat Ã— RuleEntry Ã— Vis)   -- oldest first
+  complete : Bool
 
 /-- the reference semantics of Execute: a fresh run on the given facts -/
 def specExecute (rc : RunCfg) (c : Cfg) (entries : List RuleEntry) (st : Store) : SpecResult :=
   let (out, ss) := specLoop rc c entries (rc.maxCycle + 1) 0 { vis := { st := st } }
-  { outcome := out, trace := ss.trace.reverse, store := ss.vis.st, retracted := ss.vis.retracted, polls := ss.polls }
+  { outcome := out, trace := ss.trace.reverse, store := ss.vis.st, retracted := ss.vis.retracted, polls := ss.polls,
+    fired := ss.fired.reverse, complete := ss.vis.complete }
 
 /-- what the rules may contain for the refinement theorems: pure, well-named expressions; state-changing
     built-ins only as statements -/
